@@ -28,8 +28,13 @@ func (c12) Exec(op string) string {
 		return "bad-op"
 	}
 	tag := redis.VerifHashtag(key)
-	crc := redis.VerifCrc16(tag)
-	return fmt.Sprintf("%d %s %d", redis.VerifCrc16(key), hx.Hex(tag), int(crc)&(redis.VerifSlotNum-1))
+	// the slot comes from the real routing function (upstream.chooseHost) over a
+	// table whose entry i has address "i"
+	slot, err := redis.VerifChooseSlot(key)
+	if err != nil {
+		slot = "err:" + err.Error()
+	}
+	return fmt.Sprintf("%d %s %s", redis.VerifCrc16(key), hx.Hex(tag), slot)
 }
 
 func nontrivialKey(k []byte) bool {
